@@ -67,6 +67,15 @@ def run_case(ob_id, function, case_fn, inputs, bound, chunk=64, nproc=None, budg
     over `inputs`.  Returns an Ob of tier T3."""
     global _CASE
     t0 = time.time()
+    if os.environ.get("VERIF_REPLAY_OB"):
+        import json
+        if os.environ["VERIF_REPLAY_OB"] != ob_id:
+            return Ob(id=ob_id, tier="T3", status="skipped")
+        if os.environ.get("VERIF_REPLAY_INPUT"):
+            one = json.loads(os.environ["VERIF_REPLAY_INPUT"])
+            if isinstance(one, dict):
+                one.pop("_kind", None)
+            inputs = [one]
     inputs = list(inputs)
     _CASE = case_fn
     chunks = [inputs[i:i + chunk] for i in range(0, len(inputs), chunk)]
